@@ -81,7 +81,11 @@ func (st *pState) String() string {
 		fmt.Fprintf(&sb, "  %s depth=%d count=%d rcount=%d deadline=%s aof=%v\n", n, h.Depth, h.Count, h.Rcount, dl, h.IsAof)
 	}
 	for k, v := range st.Values {
-		fmt.Fprintf(&sb, "  value %s = %x\n", k, v)
+		if len(v) > 64 {
+			fmt.Fprintf(&sb, "  value %s = %x..%x (%d bytes, fnv %016x)\n", k, v[:12], v[len(v)-8:], len(v), vHash(v))
+		} else {
+			fmt.Fprintf(&sb, "  value %s = %x\n", k, v)
+		}
 	}
 	return sb.String()
 }
@@ -280,6 +284,7 @@ type pInfo struct {
 	restored   int
 	expiredOut int
 	rotations  int
+	takenAfter int
 }
 
 func pDirInfo(dir string, info *pInfo) {
@@ -398,8 +403,35 @@ func pC07(c *aCase, next func(e *aEnv) []aOp) (info pInfo, err error) {
 		inst2.vClose(false, true)
 		return info, fmt.Errorf("%v\noriginal (quiescent):\n%srecovered:\n%s--- history ---\n%s", err, s1, s2, hist)
 	}
-	// a second restart on what the first one left behind (it compacts at start-up) must recover the same again
+	// a second restart on what the first one left behind (it compacts at start-up) must recover the same again - and the
+	// holds taken on the restarted instance with the persist-immediately flag in between
 	vAofIdle(inst2.slock.aof)
+	taken := map[string]*pHold{}
+	if len(c.After) > 0 {
+		ap := NewMemWaiterServerProtocol(inst2.slock)
+		_ = ap.SetResultCallback(func(_ *MemWaiterServerProtocol, _ *protocol.LockCommand, _ uint8, _ uint16, _ uint8, _ []byte) error { return nil })
+		msg := pSendAfter(ap, c.After)
+		if msg != "" {
+			inst2.vClose(false, true)
+			return info, fmt.Errorf("on the restarted instance: %s\n--- history ---\n%s", msg, hist)
+		}
+		vAofIdle(inst2.slock.aof)
+		vWaitRewrite(inst2.slock.aof)
+		vAofIdle(inst2.slock.aof)
+		s2b := pSnapshot(inst2.slock)
+		_ = ap.Close()
+		for n, h := range s2b.Holds {
+			if s2.Holds[n] != nil {
+				continue
+			}
+			if !h.IsAof {
+				inst2.vClose(false, true)
+				return info, fmt.Errorf("hold %s, taken on the restarted instance with the persist-immediately flag as first holder of its key, is not persisted at a quiescent point\n--- history ---\n%s", n, hist)
+			}
+			taken[n] = h
+		}
+		info.takenAfter = len(taken)
+	}
 	inst2.slock.aof.FlushWithLocked()
 	d3 := vScratchDir("p3")
 	cerr = vCopyDir(d2, d3)
@@ -432,8 +464,17 @@ func pC07(c *aCase, next func(e *aEnv) []aOp) (info pInfo, err error) {
 			return info, fmt.Errorf("second restart: hold %s changed (depth/count/rcount)\nafter first restart:\n%safter second:\n%s", n, s2, s3)
 		}
 	}
+	for n, h := range taken {
+		g := s3.Holds[n]
+		if g == nil {
+			return info, fmt.Errorf("second restart: hold %s, taken and persisted on the restarted instance, was not restored\nafter second:\n%s--- history ---\n%s", n, s3, hist)
+		}
+		if g.Depth != h.Depth || g.Count != h.Count || g.Rcount != h.Rcount {
+			return info, fmt.Errorf("second restart: hold %s taken on the restarted instance changed (depth/count/rcount)\nbefore: %+v\nafter second:\n%s", n, *h, s3)
+		}
+	}
 	for n := range s3.Holds {
-		if s2.Holds[n] == nil {
+		if s2.Holds[n] == nil && taken[n] == nil {
 			return info, fmt.Errorf("second restart: hold %s appeared\nafter first restart:\n%safter second:\n%s--- history ---\n%s", n, s2, s3, hist)
 		}
 	}
@@ -446,6 +487,15 @@ func TestC07_Restart(t *testing.T) {
 		c := pGenCase(t, "C07")
 		n := rapid.IntRange(3, 45).Draw(t, "nOps")
 		fresh := 0
+		if rapid.IntRange(0, 99).Draw(t, "afterPhase") < 60 {
+			for i := rapid.IntRange(1, 8).Draw(t, "nAfter"); i > 0; i-- {
+				op := aOp{K: "lock", Db: rapid.IntRange(0, 1).Draw(t, "afterDb"), Key: 30000 + 7*i, Id: 30400 + i, E: 900 + i, EF: 0x0100, Cnt: 0xffff}
+				if rapid.IntRange(0, 3).Draw(t, "afterVal") == 0 {
+					op.V = &aVal{Op: "set", B: rapid.SliceOfN(rapid.Byte(), 1, 9).Draw(t, "afterPayload")}
+				}
+				c.After = append(c.After, op)
+			}
+		}
 		info, err := pC07(c, func(e *aEnv) []aOp {
 			if len(c.Ops) >= n {
 				return nil
@@ -477,6 +527,9 @@ func TestC07_Restart(t *testing.T) {
 		}
 		if info.deep > 0 {
 			cls = append(cls, "persisted re-entrant hold (depth >= 2) at the restart")
+		}
+		if info.takenAfter > 0 {
+			cls = append(cls, "holds taken on the restarted instance and carried over the second restart")
 		}
 		st.Case((info.files >= 2 || info.dataFile) && info.released && info.restored > 0, c.fingerprint(), cls, func() interface{} { return c })
 		for ; pUpdCreateExcluded > 0; pUpdCreateExcluded-- {
@@ -605,6 +658,10 @@ type c08Case struct {
 	Offsets  []int `json:"offsets"`   // truncation offsets of the newest append file (-1 = every offset)
 	DatCuts  []int `json:"datcuts"`   // truncation offsets of its .dat file
 	After    []aOp `json:"after"`     // workload run after the recovery, before the second restart
+	// ImageStride > 0: while the history runs, a copy of the directory is taken at every ImageStride-th log flush that
+	// finds the files changed ("records are buffered, nothing of this flush has been written yet" - a crash at a write
+	// boundary instead of at a byte offset of the final files); at most 5 per case
+	ImageStride int `json:"imagestride,omitempty"`
 }
 
 const c08KeyTornValue = "C08:records-after-a-torn-value-are-lost-at-the-next-restart"
@@ -612,6 +669,7 @@ const c08KeyTornValue = "C08:records-after-a-torn-value-are-lost-at-the-next-res
 var c08KnownTornValue = vIsKnown(c08KeyTornValue)
 
 type c08Info struct {
+	images int
 	tornValueAfterSkipped int
 	records   int
 	torn      int
@@ -694,7 +752,58 @@ func c08RecoverDir(c *aCase, dir string) (st *pState, inst *vInst, err error) {
 // and what is persisted after that restart is recovered by the following one.
 func c08Run(c *c08Case, next func(e *aEnv) []aOp) (info c08Info, err error) {
 	hc := &c.H
+	type c08Image struct {
+		dir   string
+		flush int
+	}
+	var images []c08Image
+	defer func() {
+		for _, im := range images {
+			os.RemoveAll(im.dir)
+		}
+	}()
+	if c.ImageStride > 0 {
+		inCompaction, flushes, changed, lastSig := false, 0, 0, ""
+		vSetYieldExtra(func(point int) {
+			if point == verifPointAofRewrite {
+				inCompaction = true
+			}
+			if point == verifPointAofRewrite+9 {
+				inCompaction = false
+			}
+			if point != verifPointAofFlushStart || inCompaction || hc.DataDir == "" {
+				return
+			}
+			flushes++
+			if len(images) >= 5 {
+				return
+			}
+			sig := ""
+			if ents, err := os.ReadDir(hc.DataDir); err == nil {
+				for _, en := range ents {
+					if fi, err := en.Info(); err == nil {
+						sig += fmt.Sprintf("%s:%d;", en.Name(), fi.Size())
+					}
+				}
+			}
+			if sig == lastSig {
+				return
+			}
+			lastSig = sig
+			changed++
+			if changed%c.ImageStride != 0 {
+				return
+			}
+			d := vScratchDir("c08img")
+			if vCopyDir(hc.DataDir, d) == nil {
+				images = append(images, c08Image{d, flushes})
+			} else {
+				os.RemoveAll(d)
+			}
+		})
+	}
 	e, msg := pRunHistory(hc, next)
+	vSetYieldExtra(func(int) {})
 	if e == nil {
 		return info, fmt.Errorf("%s", msg)
 	}
@@ -727,6 +836,22 @@ func c08Run(c *c08Case, next func(e *aEnv) []aOp) (info c08Info, err error) {
 		}
 		if err := pCompareRecovered(live, full, at, "uncut log"); err != nil {
 			return info, fmt.Errorf("%v\nlive:\n%srecovered:\n%s%s--- history ---\n%s", err, live, full, pDumpDir(base), hist)
+		}
+	}
+	// crash images taken at write boundaries while the history ran: the start must succeed, and what is persisted after
+	// that restart must be recovered by the following one
+	for i, im := range images {
+		got, inst, err := c08RecoverDir(hc, im.dir)
+		if err != nil {
+			return info, fmt.Errorf("start on the crash image taken when log flush no. %d began failed: %v\n%s--- history ---\n%s", im.flush, err, pDumpDir(im.dir), hist)
+		}
+		info.images++
+		if len(c.After) > 0 {
+			if err := c08After(c, hc, inst, im.dir, got, -100000-i); err != nil {
+				return info, fmt.Errorf("(crash image taken when log flush no. %d began: records buffered, nothing of that flush written) %v\n--- history ---\n%s", im.flush, err, hist)
+			}
+		} else {
+			inst.vClose(false, false)
 		}
 	}
 	file, _ := c08Newest(base)
@@ -864,16 +989,9 @@ func c08Run(c *c08Case, next func(e *aEnv) []aOp) (info c08Info, err error) {
 	return info, nil
 }
 
-// c08After runs the post-recovery workload on the recovered instance, quiesces, and restarts once more.
-func c08After(c *c08Case, hc *aCase, inst *vInst, dir string, recovered *pState, cut int) error {
-	p := NewMemWaiterServerProtocol(inst.slock)
-	type rep struct{ result uint8 }
-	var replies []rep
-	_ = p.SetResultCallback(func(_ *MemWaiterServerProtocol, _ *protocol.LockCommand, result uint8, _ uint16, _ uint8, _ []byte) error {
-		replies = append(replies, rep{result})
-		return nil
-	})
-	for i, op := range c.After {
+// pSendAfter sends plain LOCK requests (Timeout 0) to a recovered instance; "" or the panic text.
+func pSendAfter(p *MemWaiterServerProtocol, ops []aOp) string {
+	for i, op := range ops {
 		cmd := p.GetLockCommand()
 		cmd.Magic, cmd.Version, cmd.CommandType = protocol.MAGIC, protocol.VERSION, protocol.COMMAND_LOCK
 		cmd.RequestId = aReqId(90000 + i)
@@ -885,9 +1003,24 @@ func c08After(c *c08Case, hc *aCase, inst *vInst, dir string, recovered *pState,
 			cmd.Data = op.V.commandData()
 		}
 		if msg := aSafe(nil, func() { _ = p.ProcessLockCommand(cmd) }); msg != "" {
-			inst.vClose(false, false)
-			return fmt.Errorf("after the restart on the log cut at byte %d: %s", cut, msg)
+			return msg
 		}
+	}
+	return ""
+}
+
+// c08After runs the post-recovery workload on the recovered instance, quiesces, and restarts once more.
+func c08After(c *c08Case, hc *aCase, inst *vInst, dir string, recovered *pState, cut int) error {
+	p := NewMemWaiterServerProtocol(inst.slock)
+	type rep struct{ result uint8 }
+	var replies []rep
+	_ = p.SetResultCallback(func(_ *MemWaiterServerProtocol, _ *protocol.LockCommand, result uint8, _ uint16, _ uint8, _ []byte) error {
+		replies = append(replies, rep{result})
+		return nil
+	})
+	if msg := pSendAfter(p, c.After); msg != "" {
+		inst.vClose(false, false)
+		return fmt.Errorf("after the restart on the log cut at byte %d: %s", cut, msg)
 	}
 	vAofIdle(inst.slock.aof)
 	if hc.RewriteSize > 0 {
@@ -935,6 +1068,14 @@ func c08Gen(t *rapid.T, thorough bool) (*c08Case, func(e *aEnv) []aOp) {
 	c := &c08Case{}
 	h := pGenCase(t, "C08")
 	h.EpochOff = rapid.SampledFrom([]int{15, 15, 45, 130}).Draw(t, "c08EpochOff")
+	if rapid.IntRange(0, 99).Draw(t, "images") < 55 {
+		// crash images at write boundaries: no size-triggered background compaction (C16's crash windows), small buffers often
+		c.ImageStride = rapid.IntRange(1, 3).Draw(t, "imageStride")
+		h.RewriteSize = 0
+		if rapid.IntRange(0, 1).Draw(t, "imageSmallBuf") == 0 {
+			h.AofBuf = 64
+		}
+	}
 	c.H = *h
 	n := rapid.IntRange(2, 16).Draw(t, "nOps")
 	fresh := 0
@@ -951,6 +1092,9 @@ func c08Gen(t *rapid.T, thorough bool) (*c08Case, func(e *aEnv) []aOp) {
 			op := aOp{K: "lock", Db: 0, Key: 3, Id: 300 + i, E: 600 + i, EF: 0x0100, Cnt: 0xffff}
 			if rapid.IntRange(0, 1).Draw(t, "tailVal") == 1 && i == 0 {
 				op.V = &aVal{Op: "set", B: rapid.SliceOfN(rapid.Byte(), 1, 9).Draw(t, "tailPayload")}
+				if rapid.IntRange(0, 2).Draw(t, "tailBig") == 0 {
+					op.V.L = rapid.SampledFrom([]int{4090, 4097, 5000, 9000, 17000}).Draw(t, "tailBigLen")
+				}
 			}
 			ops = []aOp{op}
 		} else if rapid.IntRange(0, 99).Draw(t, "rotate") < 5 {
@@ -1012,10 +1156,13 @@ func TestC08_CrashCut(t *testing.T) {
 		if len(c.After) > 0 {
 			cls = append(cls, "second workload + second restart")
 		}
+		if info.images > 0 {
+			cls = append(cls, "crash image at a write boundary (log flush about to start)")
+		}
 		for i := 0; i < info.tornValueAfterSkipped; i++ {
 			st.Exclude("second workload + second restart after a value-file cut (known finding " + c08KeyTornValue + ")")
 		}
-		st.Class("crash points", int64(info.offsets+info.datCuts))
+		st.Class("crash points", int64(info.offsets+info.datCuts+info.images))
 		st.Case(info.records >= 3 && (info.torn > 0 || info.datCuts > 0), vHash(c.H.fingerprint(), fmt.Sprint(c.Offsets, c.DatCuts, len(c.After))), cls, func() interface{} { return c })
 		err = pConfirm(st, "TestC08_CrashCut", "C08", c, err, func() error {
 			i := 0
@@ -1256,8 +1403,26 @@ func c16Gen(t *rapid.T) (*aCase, func(e *aEnv) []aOp) {
 	c.EpochOff = 15
 	n := rapid.IntRange(3, 26).Draw(t, "nOps")
 	fresh := 0
+	// 35% of the cases end with a clock step that puts the compaction exactly 60 / 120 s (or thereabouts) after the last
+	// update of a hold with minute-unit terms: the compaction re-derives such deadlines with a one-minute granularity
+	c.TailTick = rapid.IntRange(0, 99).Draw(t, "tailTick") < 35
+	if c.TailTick {
+		c.EpochOff = 15 + 190 // the virtual clock must still lag the wall clock after the step (<= 185 s)
+	}
+	tailDone, updAt := false, int64(-1)
 	return c, func(e *aEnv) []aOp {
 		if len(c.Ops) >= n {
+			if c.TailTick && !tailDone {
+				tailDone = true
+				step := rapid.IntRange(55, 65).Draw(t, "tailStep")
+				if updAt >= 0 && rapid.IntRange(0, 9).Draw(t, "tailAligned") < 8 {
+					step = 60 - int((e.now-updAt)%60)
+				}
+				step += 60 * rapid.SampledFrom([]int{0, 0, 1}).Draw(t, "tailMinutes")
+				ops := []aOp{{K: "tick", N: step}}
+				c.Ops = append(c.Ops, ops...)
+				return ops
+			}
 			return nil
 		}
 		var ops []aOp
@@ -1266,8 +1431,50 @@ func c16Gen(t *rapid.T) (*aCase, func(e *aEnv) []aOp) {
 			ops = []aOp{{K: "rotate"}}
 		case x < 16:
 			ops = []aOp{{K: "rotate-only"}}
+		case x < 26:
+			// a value-only record: a zero-expiry request with a value operation, admitted next to the holders of a key
+			// (it holds nothing itself; the log gets a record that only changes the key's value)
+			var cands []*mKey
+			for _, k := range aSortedKeys(e.mon) {
+				if len(k.holders) > 0 && len(k.waiters) == 0 {
+					sum := 0
+					for _, h := range k.holders {
+						sum += h.depth
+					}
+					if sum <= k.holders[0].count && k.holders[0].count > 0 {
+						cands = append(cands, k)
+					}
+				}
+			}
+			if len(cands) == 0 {
+				ops = aGenOps(t, e, pProfile, &fresh)
+				break
+			}
+			k := cands[rapid.IntRange(0, len(cands)-1).Draw(t, "voKey")]
+			fresh++
+			op := aOp{K: "lock", C: rapid.IntRange(0, c.Clients-1).Draw(t, "voClient"), Db: k.db, Key: keyIndex(k.key), Id: 100 + fresh, Cnt: k.holders[0].count, E: 0}
+			switch keyIndex(k.key) % 3 {
+			case 1:
+				op.V = &aVal{Op: rapid.SampledFrom([]string{"incr", "unset", "set"}).Draw(t, "voNumOp"), N: 3, B: []byte{7}}
+			case 2:
+				op.V = &aVal{Op: rapid.SampledFrom([]string{"push", "unset"}).Draw(t, "voArrOp"), B: rapid.SliceOfN(rapid.Byte(), 1, 4).Draw(t, "voElem")}
+			default:
+				op.V = &aVal{Op: rapid.SampledFrom([]string{"set", "unset", "unset", "append"}).Draw(t, "voBytesOp"), B: rapid.SliceOfN(rapid.Byte(), 0, 6).Draw(t, "voPayload")}
+			}
+			if op.V.Op == "unset" || op.V.Op == "incr" {
+				op.V.B = nil
+			}
+			if op.V.Op != "incr" {
+				op.V.N = 0
+			}
+			ops = []aOp{op}
 		default:
 			ops = aGenOps(t, e, pProfile, &fresh)
+		}
+		for _, op := range ops {
+			if op.K == "lock" && op.F&fUPDATE != 0 && op.EF&efMINUTE != 0 {
+				updAt = e.now
+			}
 		}
 		c.Ops = append(c.Ops, ops...)
 		return ops
@@ -1288,6 +1495,21 @@ func TestC16_Compaction(t *testing.T) {
 		}
 		if info.released {
 			cls = append(cls, "released hold in the inputs")
+		}
+		valueOnly, tail := false, false
+		for _, op := range c.Ops {
+			if op.K == "lock" && op.E == 0 && op.EF&(efMINUTE|efUNLIMITED) == 0 && op.V != nil {
+				valueOnly = true
+			}
+			if op.K == "tick" && op.N >= 55 {
+				tail = true
+			}
+		}
+		if valueOnly {
+			cls = append(cls, "value-only request (zero expiry, value operation) next to a holder")
+		}
+		if tail {
+			cls = append(cls, "compaction about a whole number of minutes after the last request")
 		}
 		st.Class("crash images", int64(info.images))
 		for i := 0; i < info.skipped; i++ {
